@@ -8,6 +8,10 @@ mod shrink;
 mod util;
 
 mod mon_c01;
+mod mon_c02;
+mod mon_c10;
+mod mon_c12;
+mod mon_c19;
 
 use ctx::{Ctx, Tier};
 
@@ -93,6 +97,10 @@ fn main() {
     util::install_panic_hook();
     match prop.as_str() {
         "C01" => mon_c01::run(&mut ctx),
+        "C02" => mon_c02::run(&mut ctx),
+        "C10" => mon_c10::run(&mut ctx),
+        "C12" => mon_c12::run(&mut ctx),
+        "C19" => mon_c19::run(&mut ctx),
         _ => {
             eprintln!("unknown property {prop}");
             std::process::exit(2);
